@@ -490,6 +490,51 @@ def run_shard(spec, acc):
     if spec["what"] == "conformance_pty":
         return conformance_pty(spec, acc)
     if spec["what"] == "long_noise":
+        # a packet is cut by the loss of the link, and the loss is noticed by the WRITE side (the flush of a send() fails, the read
+        # side stays silent); the client opens the port again: the stream on the new link is a clean stream - every packet of it
+        # is delivered, the first one included
+        from .c13 import make_send_message
+        for rep in range(8 if quick else 80):
+            first = [valid_packet(rng, k) for k in range(2)]
+            cut_at = rng.randrange(1, 20)
+            second = [valid_packet(rng, 10 + k) for k in range(4)]
+
+            async def scenario(sim, first=first, cut_at=cut_at, second=second, rep=rep):
+                sim.spawn("connect")
+                await asyncio.sleep(0.05)
+                c0 = sim.conns[0]
+                c0.feed(b"".join(first) + valid_packet(rng, 5)[:cut_at])
+                await asyncio.sleep(0.3)
+                if rep % 2:
+                    c0.drain_fails = 0
+                else:
+                    c0.fail_write_after = 0
+                    c0.fail_exc = simgw.link_loss("waveshare", write=True)
+                sim.spawn("send", make_send_message("waveshare"))
+                for _ in range(6000):
+                    if len(sim.conns) > 1 and sim.client.state.name == "CONNECTED":
+                        break
+                    await asyncio.sleep(0.01)
+                await asyncio.sleep(0.1)
+                if len(sim.conns) > 1:
+                    sim.conns[-1].feed(b"".join(second))
+                await asyncio.sleep(1.0)
+                await sim.close_guarded()
+            sim, stats = simgw.run_session("waveshare", scenario)
+            acc.count("sessions")
+            acc.count("sessions_reconnected_after_a_failing_send_mid_packet")
+            if stats["error"] or sim is None:
+                acc.inconclusive_because(f"simulator: {stats['error']}")
+                continue
+            if len(sim.conns) < 2:
+                continue                      # (no reconnection: C13 / C19 judge that)
+            want_ = [p[5] for p in first + second]            # source address = low byte of the identifier
+            got_ = [m.source for m in sim.received]
+            acc.case(("send-failure-mid-packet", rep, cut_at))
+            if got_ != want_:
+                acc.violation("clean-packet-lost:on-the-connection-after-a-failed-send", f"the link is lost {cut_at} bytes into a packet (noticed by a failing "
+                              f"{'flush' if rep % 2 else 'write'} of a send), the port is opened again: delivered sources {got_}, sent {want_}",
+                              {"cut_at": cut_at, "variant": "drain" if rep % 2 else "write", "delivered": got_, "sent": want_})
         # a saturated port: thousands of valid packets (or packets after a flood of noise) with never a short read
         for n_pk, chunk in ([(3000, 1 << 20), (1500, 4096)] if quick else [(3000, 1 << 20), (30000, 1 << 22), (8000, 4096), (8000, 1000)]):
             for flood in (0, 50_000):
